@@ -13,6 +13,10 @@ func main() {
 		workerMain()
 		return
 	}
+	if len(os.Args) >= 3 && os.Args[1] == "patterns-baseline" {
+		writePatternsBaseline(os.Args[2])
+		return
+	}
 	fs := flag.NewFlagSet("harness", flag.ExitOnError)
 	prop := fs.String("prop", "", "property id")
 	tier := fs.String("tier", "quick", "quick|thorough")
